@@ -96,6 +96,9 @@ func cloneReplicas(p *types.Project) {
 		}
 		for replica := 0; replica < proc.Replicas; replica++ {
 			proc.ReplicaNum = replica
+			// probes are rendered per replica: every replica needs its own copy
+			proc.LivenessProbe = proc.LivenessProbe.Clone()
+			proc.ReadinessProbe = proc.ReadinessProbe.Clone()
 			repName := proc.CalculateReplicaName()
 			proc.ReplicaName = repName
 			if proc.Replicas == 1 {
